@@ -1,17 +1,19 @@
 #!/usr/bin/env python3
 """Soak: run every claimed check's quick tier on the unchanged tree for several seeds; report non-zero exits.
    python3 lib/soak.py <first_seed> <last_seed> [Cxx ...]"""
-import concurrent.futures, json, os, subprocess, sys, time
+import concurrent.futures, json, os, subprocess, sys, threading, time
 ROOT = os.path.dirname(os.path.dirname(os.path.abspath(__file__)))
 lo, hi = int(sys.argv[1]), int(sys.argv[2])
 only = set(sys.argv[3:])
 m = json.load(open(os.path.join(ROOT, "MANIFEST.json")))
 jobs = [(c["property_id"], s) for s in range(lo, hi + 1) for c in m["checks"] if not only or c["property_id"] in only]
+LOCKS = {}
 def one(j):
     pid, s = j
     t0 = time.time()
-    p = subprocess.run([os.path.join(ROOT, "check"), pid, "--tier", "quick", "--seed", str(s)], cwd=ROOT,
-                       stdout=subprocess.PIPE, stderr=subprocess.STDOUT, text=True)
+    with LOCKS.setdefault(pid, threading.Lock()):   # two runs of one property share a work dir
+      p = subprocess.run([os.path.join(ROOT, "check"), pid, "--tier", "quick", "--seed", str(s)], cwd=ROOT,
+                         stdout=subprocess.PIPE, stderr=subprocess.STDOUT, text=True)
     tail = [l for l in p.stdout.splitlines() if l.startswith(("VIOLATION", pid + " tier", "undischarged"))]
     return pid, s, p.returncode, time.time() - t0, tail
 bad = []
